@@ -93,6 +93,8 @@ def coincidence_scenarios(chk, n, pid="C01"):
         r = common.rng(pid, "lattice", k)
         if k % 4 == 3:
             glyphs, variant = S.thin_bar_scenario(r), dict(S.LATTICE_CONFIG)
+        elif k % 4 == 1 and k % 8 == 1:
+            glyphs, variant = S.tiny_copy_scenario(r), dict(S.TINY_CONFIG)
         else:
             glyphs, variant = S.lattice_scenario(r), dict(S.LATTICE_CONFIG if k % 3 else {"upem": 100, "ascender": 100, "descender": 0, "width": 100})
         tol = 0.1
